@@ -314,6 +314,9 @@ func (h *handler) processUnaryRpc(
 		log.Panic().Err(err).Msg("Server: failed to get context from headers")
 	}
 	defer cancel()
+	// Like a stream handler's, the handler's context ends with the connection.
+	stop := context.AfterFunc(h.ctx, cancel)
+	defer stop()
 
 	var appErr error
 	fullMethod := fmt.Sprintf("/%s/%s", info.name, md.MethodName)
